@@ -51,18 +51,12 @@ Theorem C05_cron_schedule_inv : forall e0 fc bud ops, Forall wf_op ops ->
   forall id mi, miners st !! id = Some mi -> id ∈ claims st ->
   (m_active mi = true <-> forall k, pdq st id k = ind (k =? dl_last (m_pps mi) (now st))) /\
   (m_active mi = false -> forall k, pdq st id k = 0).
-Proof.
-  intros e0 fc bud ops Hwf st id mi Hm Hcl.
-  destruct (run_inv ops _ Hwf (inv_init e0 fc bud)) as (_ & _ & _ & HI).
-  destruct (HI id mi Hm) as (H1 & H2 & _). split; [|exact H1]. split; [intros Ha; exact (H2 Ha Hcl)|].
-  intros H. destruct (m_active mi) eqn:Ha; [reflexivity|]. specialize (H1 eq_refl (dl_last (m_pps mi) (now (run (init e0 fc bud) ops)))).
-  fold st in H1. rewrite H, Z.eqb_refl in H1. discriminate.
-Qed.
+Proof. exact schedule_inv_reachable. Qed.
 
 (* ---- no duplicate: no miner (claim or not, known or not) ever has two pending ProvingDeadline events ---- *)
 Theorem C05_no_duplicate_event : forall e0 fc bud ops id, Forall wf_op ops ->
   exists E, forall k, pdq (run (init e0 fc bud) ops) id k <= ind (k =? E).
-Proof. intros e0 fc bud ops id Hwf. exact (inv_at_most_one _ id (run_inv ops _ Hwf (inv_init e0 fc bud))). Qed.
+Proof. exact no_duplicate_reachable. Qed.
 
 (* ---- no event lost: a tick dispatches exactly the events of claim holders at all epochs first_cron_epoch..now
         (in queue order), nothing older than first_cron_epoch exists, nothing at or before `now` remains, later
@@ -77,7 +71,15 @@ Theorem C05_no_event_lost : forall e0 fc bud ops ti, Forall wf_op ops -> power_o
   (forall k, k <= now st -> evs (queue st') k = []) /\
   (forall k, now st < k -> exists l, evs (queue st') k = evs (queue st) k ++ l) /\
   first_cron st' = now st + 1 /\ now st' = now st + 1.
-Proof. intros e0 fc bud ops ti Hwf Hok. exact (no_event_lost _ ti (run_inv ops _ Hwf (inv_init e0 fc bud)) Hok). Qed.
+Proof. exact no_event_lost_reachable. Qed.
+
+(* ---- on time: in a tick, the proving-deadline callback of an active claim holder is dispatched exactly when the
+        current epoch is the last epoch of its deadline ---- *)
+Theorem C05_proving_deadline_callback_on_time : forall e0 fc bud ops ti id mi, Forall wf_op ops -> power_ok ti ->
+  let st := run (init e0 fc bud) ops in
+  miners st !! id = Some mi -> m_active mi = true -> id ∈ claims st ->
+  (dl_last (m_pps mi) (now st) = now st <-> In (id, PD) (map (fun x => fst x) (snd (step st (Tick ti))))).
+Proof. exact pd_callback_on_time. Qed.
 
 (* ---- a claim disappears only in a tick, and only for a miner one of whose callbacks failed in that tick
         (ANY state, ANY operation, ANY inputs); conversely a failed callback costs the claim ---- *)
@@ -102,10 +104,7 @@ Theorem C05_miner_callback_total_partial : forall st id kind ci,
   f_tx ci = false -> f_power ci = false -> f_burn ci = false -> f_pledge ci = false -> f_balance ci = false ->
   f_enroll ci = false ->
   is_Some (callback st id kind ci).
-Proof.
-  intros st id kind ci Hm Hn H1 H2 H3 H4 H5 H6. apply callback_total_partial; auto.
-  unfold ci_hard_fail. rewrite H1, H2, H3, H4, H5. reflexivity.
-Qed.
+Proof. exact callback_total_partial_flags. Qed.
 
 Theorem C05_miner_callback_fails_on_hard_input : forall st id kind ci,
   ci_hard_fail ci = true -> callback st id kind ci = None.
@@ -127,12 +126,7 @@ Theorem C05_early_terminations_never_stranded : forall e0 fc bud ops, Forall wf_
   let st := run (init e0 fc bud) ops in
   forall id mi, miners st !! id = Some mi -> id ∈ claims st -> 0 < m_et mi ->
   exists k, first_cron st <= k /\ In (id, ET) (evs (queue st) k).
-Proof.
-  intros e0 fc bud ops Hwf st id mi Hm Hcl Hp.
-  pose proof (run_inv ops _ Hwf (inv_init e0 fc bud)) as HI.
-  destruct (run_et_inv ops _ Hwf (inv_init e0 fc bud) (et_inv_init e0 fc bud) id mi Hm Hcl Hp) as [k Hk].
-  exists k. split; [|exact Hk]. destruct HI as (Hqd & _). apply Hqd. eapply in_evs_nonempty; eauto.
-Qed.
+Proof. exact et_never_stranded_reachable. Qed.
 
 (* ---- the recorded deadline.  After the tick that runs a miner's proving-deadline callback on time, the recorded
         current_deadline is the index of the deadline containing the NEXT epoch; the recorded proving_period_start
@@ -149,10 +143,7 @@ Theorem C05_deadline_recorded_after_tick : forall e0 fc bud ops ti id mi, Forall
     (exists k, m_pps mi' = m_pps mi + 2880 * k) /\
     (m_pps mi = dl_period_start (m_pps mi) (now st) \/ dl_index (m_pps mi) (now st) = 47 ->
        m_pps mi' = dl_period_start (m_pps mi') (now st')).
-Proof.
-  intros e0 fc bud ops ti id mi Hwf Hok st Hm Ha Hcl HL st' Hcl'.
-  exact (deadline_recorded_after_tick st ti id mi (run_inv ops _ Hwf (inv_init e0 fc bud)) Hok Hm Ha Hcl HL Hcl').
-Qed.
+Proof. exact deadline_recorded_reachable. Qed.
 
 (* ... and once the recorded pair of an active claim holder is the current deadline it stays so, whatever happens
    (messages, ticks with arbitrary callback failures), as long as the miner keeps its claim *)
@@ -161,10 +152,7 @@ Theorem C05_recorded_deadline_stable : forall e0 fc bud ops o id mi mi', Forall 
   miners st !! id = Some mi -> m_active mi = true -> id ∈ claims st -> recorded mi (now st) ->
   let st' := fst (fst (step st o)) in
   miners st' !! id = Some mi' -> id ∈ claims st' -> recorded mi' (now st').
-Proof.
-  intros e0 fc bud ops o id mi mi' Hwf Hwo st Hm Ha Hcl HR st' Hm' Hcl'.
-  exact (recorded_stable st o id mi mi' (run_inv ops _ Hwf (inv_init e0 fc bud)) Hwo Hm Ha Hcl HR Hm' Hcl').
-Qed.
+Proof. exact recorded_stable_reachable. Qed.
 
 (* a freshly constructed miner's recorded pair is the deadline containing its creation epoch *)
 Theorem C05_constructor_records_current_deadline : forall e off, 0 <= e -> 0 <= off < 2880 ->
@@ -205,11 +193,7 @@ Theorem C05_active_iff_obligations_after_precommit : forall e0 fc bud ops,
   hist_ok disciplined (init e0 fc bud) ops ->
   forall id mi, miners (run (init e0 fc bud) ops) !! id = Some mi -> m_pre mi = true ->
   obl_nz (m_obl mi) = true -> m_active mi = true.
-Proof.
-  intros e0 fc bud ops H id mi Hm Hp Ho.
-  pose proof (run_obl_inv ops _ H (obl_inv_init e0 fc bud) id mi Hm Hp) as HI.
-  destruct (m_active mi); [reflexivity|]. rewrite HI in Ho by reflexivity. discriminate.
-Qed.
+Proof. exact obligations_after_precommit. Qed.
 
 (* ---- non-vacuity: concrete histories evaluated by the kernel ---- *)
 Definition T0 := Tick {| t_entry_fail := false; t_reward_fail := false; t_kpi_fail := false; t_market_fail := false; t_cbs := [] |}.
